@@ -199,7 +199,7 @@ ConsistentCut ==
 
 \* C14: whenever no snapshot is running the recorder is detached
 RecorderClean ==
-  \A c \in Colls : (\A t \in Actors : ~(txn[t].c = c /\ txn[t].pc \in {"snap.open", "snap.blocks", "snap.copy"})) => ~st[c].rec.open
+  \A c \in Colls : (\A t \in Actors : ~(txn[t].c = c /\ txn[t].pc \in {"snap.open", "snap.blocks", "snap.closing", "snap.copy"})) => ~st[c].rec.open
 
 \* C02: a transaction that ends without committing anything (error, or nothing buffered) leaves no trace:
 \* the collection is exactly as before except that the offsets it had reserved are free again
